@@ -8,6 +8,7 @@ import sys
 import time
 
 ROOT = os.path.dirname(os.path.dirname(os.path.abspath(__file__)))
+OUT = os.environ.get("PYVC_OUT", ROOT)      # evidence / replay output root (scratch runs against a modified copy of the repository)
 VENV_PY = "/venv/bin/python"
 
 
@@ -50,7 +51,7 @@ def match_known(known, prop, func, name):
 
 
 def write_replay(prop, idx, payload):
-    d = os.path.join(ROOT, "replays", prop)
+    d = os.path.join(OUT, "replays", prop)
     os.makedirs(d, exist_ok=True)
     path = os.path.join(d, "violation_%03d.json" % idx)
     json.dump(payload, open(path, "w"), indent=1, default=str)
@@ -249,11 +250,16 @@ def finish(prop, tier, seed, plan, results, errors, harness_out, wall, update_ba
         "wall_s": round(wall, 2),
         "violations": vcount,
     }
-    os.makedirs(os.path.join(ROOT, "evidence"), exist_ok=True)
-    json.dump(ev, open(os.path.join(ROOT, "evidence", "%s.json" % prop), "w"), indent=1, default=str)
+    os.makedirs(os.path.join(OUT, "evidence"), exist_ok=True)
+    json.dump(ev, open(os.path.join(OUT, "evidence", "%s.json" % prop), "w"), indent=1, default=str)
     if update_baseline and status in (0,):
-        baseline[prop] = {"discharged": sorted(all_dis_names)}
-        json.dump(baseline, open(os.path.join(ROOT, "baseline_obligations.json"), "w"), indent=1)
+        import fcntl
+        bp = os.path.join(ROOT, "baseline_obligations.json")
+        with open(bp + ".lock", "w") as lk:          # several properties may be re-baselined concurrently
+            fcntl.flock(lk, fcntl.LOCK_EX)
+            cur = json.load(open(bp)) if os.path.exists(bp) else {}
+            cur[prop] = {"discharged": sorted(all_dis_names)}
+            json.dump(cur, open(bp, "w"), indent=1)
     for l in kf_lines:
         print(l)
     for l in lines:
